@@ -27,7 +27,11 @@ def run(ctx):
                       "to the job with the same group id")
     ctx.rule("R06-5", "Job::all_members_stopped is false exactly when some pid is not in pids_stopped; the job is marked "
                       "stopped only under it")
+    ctx.rule("R06-6", "Job.pids stays in launch order (fg hands it to wait_fg_job, which takes pids.last() for the stage whose "
+                      "status counts): crate-wide, the vector is only appended to and shortened by order-preserving "
+                      "removal - no swap_remove / sort / reverse / rotate / swap / insert")
     for crate in ctx.crates:
+        order_rule(ctx, crate)
         lookup_rule(ctx, crate)
         routing_rule(ctx, crate)
         if crate.kind == "bin":
@@ -297,3 +301,34 @@ def stopped_rule(ctx, crate):
                                      for a, v in dom_facts(j, bb)) for bb in calls)
         ctx.ob("R06-5", j.path, "the job is marked Stopped only when all_members_stopped()", ok,
                key="R06-5|%s|escalation" % j.path, crate=crate.kind)
+
+
+ORDER_BREAKING = {"swap_remove", "sort", "sort_by", "sort_by_key", "sort_unstable", "sort_unstable_by", "sort_unstable_by_key",
+                  "reverse", "rotate_left", "rotate_right", "swap", "insert", "dedup", "dedup_by_key", "select_nth_unstable"}
+ORDER_KEEPING = {"push", "remove", "retain", "drain", "pop", "truncate", "clear", "extend", "append"}
+
+
+def order_rule(ctx, crate):
+    n = 0
+    for p, b in sorted(crate.bodies.items()):
+        if b.kind not in ("fn", "closure"):
+            continue
+        for bb, t, c in b.calls():
+            ls = last_seg(c)
+            if ls not in ORDER_BREAKING and ls not in ORDER_KEEPING:
+                continue
+            if "Vec" not in c and "slice" not in c and "[T]" not in c:
+                continue
+            a = b.call_args(bb)
+            if not a:
+                continue
+            recv = b.expand_vars(strip_sites(a[0]))
+            if not any(sub[0] == "field" and mir.field_name(sub) == "pids" for sub in mir.subexprs(recv)):
+                continue
+            n += 1
+            ok = ls in ORDER_KEEPING
+            ctx.ob("R06-6", p, "%s on Job.pids keeps the launch order" % ls, ok,
+                   key="R06-6|%s|order|%s" % (p, ls), where=b.loc(bb), crate=crate.kind,
+                   detail=None if ok else "after a member other than the last has been removed this way, pids.last() is no longer "
+                   "the last stage: `fg` reports the status of a middle stage")
+    ctx.floor("R06-6", crate, "mutations of Job.pids", n, 2)
